@@ -199,6 +199,7 @@ def run(ctx):
         for k in list(m)[:3]:
             variants.append({kk: x for kk, x in m.items() if kk != k})
         variants.append({**m, 'zz_extra': 1})
+        variants.append({**m, **{f"zz_extra_{j}": j for j in range(8)}})      # more keys than the class has names
         carriers = genval.MAP_CARRIERS + (('defaultdict(int)', lambda d: collections.defaultdict(int, d)),
                                           ('defaultdict(dict)', lambda d: collections.defaultdict(dict, d)),
                                           ('Counter', lambda d: collections.Counter(d) if all(type(x) is int for x in d.values()) else dict(d)))
@@ -219,7 +220,7 @@ def run(ctx):
             names = r.sample(gentypes.FIELD_NAMES, r.randint(1, 3))
             ty = Ty('struct', [gentypes.gen_type(r, 1, lit_ok=False) for _ in names], keys=tuple(names))
         elif k == 'dc':
-            ty = Ty('dc', spec=gentypes.gen_class(r, 1))
+            ty = Ty('dc', spec=gentypes.gen_class(r, 1, force={'allow_extra': True} if r.random() < 0.5 else None))
         elif k == 'dict':
             ty = Ty('dict', [Ty('str'), gentypes.gen_type(r, 1, lit_ok=False)], res='dict')
         else:
